@@ -150,7 +150,10 @@ func genMessage(c *sim.Ctx) interface{} {
 	}
 	m := map[string]interface{}{}
 	if genMultiCand && c.Chance(1, 4, "msgarrA") {
-		m["a"] = [][]interface{}{{1.0, 2.0, 3.0}, {2.0, "x"}, {"x", "y", 2.0}, {3.0, 1.0}}[c.Intn(4, "msgarrAval")]
+		m["a"] = [][]interface{}{{1.0, 2.0, 3.0}, {2.0, "x"}, {"x", "y", 2.0}, {3.0, 1.0},
+			// many candidates, the one a selective guard may be waiting for among the last
+			{10.0, 11.0, 12.0, 13.0, 14.0, 15.0, 16.0, 17.0, 18.0, 19.0, 3.0, "x"},
+			{"p", "q", "r", "s", "t", "u", "w", "y", "z", 2.0}}[c.Intn(6, "msgarrAval")]
 		return m
 	}
 	n := 1 + c.Intn(3, "msgkeys")
